@@ -332,6 +332,70 @@ fn record(seed: u64, runs: u64, target: usize, path: &str, faults: bool, palette
     json!({"summary":{"events":events,"bytes":bytes,"runs":runs}})
 }
 
+/// mechanism S (specification -> implementation): behaviours of MC_WinconStream {"pre":[bytes],"buf":[bytes],"op":..,"script":[..]}
+/// replayed on a fresh stream over a scripted console; one trace event per call (the earlier call on a reliable console, then
+/// the scripted one), in Trace_WinconStream's format
+fn script_replay(path: &str, out: &str) -> Value {
+    let f = std::fs::File::open(path).unwrap();
+    let mut w = io::BufWriter::new(std::fs::File::create(out).unwrap());
+    let (mut cases, mut events) = (0u64, 0u64);
+    let bytes_of = |v: &Value| -> Vec<u8> { v.as_array().unwrap().iter().map(|x| x.as_u64().unwrap() as u8).collect() };
+    for line in io::BufReader::new(f).lines() {
+        let line = line.unwrap();
+        if line.trim().is_empty() {
+            continue;
+        }
+        let c: Value = serde_json::from_str(&line).unwrap();
+        cases += 1;
+        let (pre, buf) = (bytes_of(&c["pre"]), bytes_of(&c["buf"]));
+        let op = c["op"].as_str().unwrap().to_string();
+        let script: VecDeque<Resp> = c["script"].as_array().unwrap().iter().map(|r| match r.as_str().unwrap() {
+            "all" => Resp::All,
+            "s1" => Resp::Short(1),
+            "z" => Resp::Short(0),
+            "eI" => Resp::ErrI,
+            _ => Resp::ErrO,
+        }).collect();
+        let log = Rc::new(RefCell::new(ConsoleLog::default()));
+        let mut s = wincon::WinconStream::new(Console(log.clone()));
+        let mut first = true;
+        if !pre.is_empty() {
+            let res = catch_unwind(AssertUnwindSafe(|| s.write_all(&pre)));
+            let console: Vec<Value> = log.borrow().calls.iter().map(|(f, b, d, t, k)| json!([f, b, d, t, k])).collect();
+            let ret = match &res {
+                Ok(Ok(())) => json!(["ok", pre.len()]),
+                Ok(Err(e)) => json!([kind_of(e), 0]),
+                Err(_) => json!(["panic", 0]),
+            };
+            writeln!(w, "{}", json!({"op":"write_all","new":1,"buf":pre,"console":console,"ret":ret})).unwrap();
+            events += 1;
+            first = false;
+        }
+        {
+            let mut l = log.borrow_mut();
+            l.calls.clear();
+            l.script = script;
+        }
+        let res = catch_unwind(AssertUnwindSafe(|| -> io::Result<usize> {
+            match op.as_str() {
+                "write" => s.write(&buf),
+                "write_all" => s.write_all(&buf).map(|_| buf.len()),
+                _ => write!(s, "{}", std::str::from_utf8(&buf).unwrap()).map(|_| buf.len()),
+            }
+        }));
+        let console: Vec<Value> = log.borrow().calls.iter().map(|(f, b, d, t, k)| json!([f, b, d, t, k])).collect();
+        let ret = match &res {
+            Ok(Ok(n)) => json!(["ok", n]),
+            Ok(Err(e)) => json!([kind_of(e), 0]),
+            Err(_) => json!(["panic", 0]),
+        };
+        writeln!(w, "{}", json!({"op":op,"new":if first {1} else {0},"buf":buf,"console":console,"ret":ret,"script":c["script"],"model_ret":c["ret"]})).unwrap();
+        events += 1;
+    }
+    w.flush().unwrap();
+    json!({"summary":{"cases":cases,"events":events}})
+}
+
 /// all compositions of n (same enumeration as vh::strip::chunkings)
 fn chunkings(n: usize, all_up_to: usize) -> Vec<Vec<usize>> {
     if n == 0 {
@@ -500,6 +564,8 @@ fn main() {
             std::fs::write(&args[2], format!("{}\n", json!({"op":"write","new":1,"buf":buf,"console":console,"ret":ret}))).unwrap();
         }
         Some("replay") => println!("{}", replay(&args[2], args[3].parse().unwrap())),
+        // script-replay <behaviours.ndjson> <out.ndjson>
+        Some("script-replay") => println!("{}", script_replay(&args[2], &args[3])),
         _ => {
             eprintln!("unknown command");
             std::process::exit(2);
